@@ -181,6 +181,9 @@ namespace bluetoe {
         public:
             notification_queue_impl()
             {
+                for ( auto& byte : requested_ )
+                    byte = 0;
+
                 clear_indications_and_confirmations();
             }
 
@@ -229,20 +232,46 @@ namespace bluetoe {
             void clear_indications_and_confirmations()
             {
                 next_ = 0;
-                std::fill( std::begin( queue_ ), std::end( queue_ ), 0 );
+
+                // served_ is only written by the link layer: everything requested so far counts as served
+                for ( std::size_t byte = 0; byte != sizeof( served_ ) / sizeof( served_[ 0 ] ); ++byte )
+                    store( served_[ byte ], load( requested_[ byte ] ) );
             }
 
         private:
+            /*
+             * A request is pending, if its bit in requested_ differs from its bit in served_.
+             * requested_ is only written by queue_notification() / queue_indication() (the requesting context),
+             * served_ is only written by dequeue_indication_or_confirmation() and clear_indications_and_confirmations()
+             * (the link layer). So there is exactly one writer for every byte and a read-modify-write of one context
+             * can not be torn by the other context.
+             */
+            static std::uint8_t load( const volatile std::uint8_t& byte )
+            {
+#ifdef BLUETOE_VERIF_HOOKS
+                BLUETOE_VERIF_YIELD( 'l', const_cast< const std::uint8_t* >( &byte ) );
+#endif
+                return byte;
+            }
+
+            static void store( volatile std::uint8_t& byte, std::uint8_t value )
+            {
+#ifdef BLUETOE_VERIF_HOOKS
+                BLUETOE_VERIF_YIELD( 's', const_cast< const std::uint8_t* >( &byte ) );
+#endif
+                byte = value;
+            }
+
             int at( std::size_t index )
             {
                 const auto bit_offset  = ( index * bits_per_characteristc ) % 8;
                 const auto byte_offset = index * bits_per_characteristc / 8;
-                assert( byte_offset < sizeof( queue_ ) / sizeof( queue_[ 0 ] ) );
+                assert( byte_offset < sizeof( requested_ ) / sizeof( requested_[ 0 ] ) );
 
-#ifdef BLUETOE_VERIF_HOOKS
-                BLUETOE_VERIF_YIELD( 'l', &queue_[ byte_offset ] );
-#endif
-                return ( queue_[ byte_offset ] >> bit_offset ) & 0x03;
+                const std::uint8_t requested = load( requested_[ byte_offset ] );
+                const std::uint8_t served    = load( served_[ byte_offset ] );
+
+                return ( ( requested ^ served ) >> bit_offset ) & 0x03;
             }
 
             bool add( std::size_t index, int bits )
@@ -250,38 +279,32 @@ namespace bluetoe {
                 assert( bits & ( ( 1 << bits_per_characteristc ) -1 ) );
                 const auto bit_offset  = ( index * bits_per_characteristc ) % 8;
                 const auto byte_offset = index * bits_per_characteristc / 8;
-                assert( byte_offset < sizeof( queue_ ) / sizeof( queue_[ 0 ] ) );
+                assert( byte_offset < sizeof( requested_ ) / sizeof( requested_[ 0 ] ) );
 
-#ifdef BLUETOE_VERIF_HOOKS
-                BLUETOE_VERIF_YIELD( 'l', &queue_[ byte_offset ] );
-                const bool result = ( queue_[ byte_offset ] & ( bits << bit_offset ) ) == 0;
-                BLUETOE_VERIF_YIELD( 'l', &queue_[ byte_offset ] );
-                const std::uint8_t verif_loaded = queue_[ byte_offset ];
-                BLUETOE_VERIF_YIELD( 's', &queue_[ byte_offset ] );
-                queue_[ byte_offset ] = static_cast< std::uint8_t >( verif_loaded | ( bits << bit_offset ) );
-#else
-                const bool result = ( queue_[ byte_offset ] & ( bits << bit_offset ) ) == 0;
-                queue_[ byte_offset ] |= bits << bit_offset;
-#endif
+                const std::uint8_t requested = load( requested_[ byte_offset ] );
+                const std::uint8_t served    = load( served_[ byte_offset ] );
 
-                return result;
+                // already pending
+                if ( ( requested ^ served ) & ( bits << bit_offset ) )
+                    return false;
+
+                // requested is still up to date: nobody else writes requested_
+                store( requested_[ byte_offset ], static_cast< std::uint8_t >( requested ^ ( bits << bit_offset ) ) );
+
+                return true;
             }
 
+            // @pre the bits to be removed are pending
             void remove( std::size_t index, int bits )
             {
                 assert( bits & ( ( 1 << bits_per_characteristc ) -1 ) );
                 const auto bit_offset  = ( index * bits_per_characteristc ) % 8;
                 const auto byte_offset = index * bits_per_characteristc / 8;
-                assert( byte_offset < sizeof( queue_ ) / sizeof( queue_[ 0 ] ) );
+                assert( byte_offset < sizeof( served_ ) / sizeof( served_[ 0 ] ) );
 
-#ifdef BLUETOE_VERIF_HOOKS
-                BLUETOE_VERIF_YIELD( 'l', &queue_[ byte_offset ] );
-                const std::uint8_t verif_loaded = queue_[ byte_offset ];
-                BLUETOE_VERIF_YIELD( 's', &queue_[ byte_offset ] );
-                queue_[ byte_offset ] = static_cast< std::uint8_t >( verif_loaded & ~( bits << bit_offset ) );
-#else
-                queue_[ byte_offset ] &= ~( bits << bit_offset );
-#endif
+                // served is still up to date, when written: nobody else writes served_
+                const std::uint8_t served = load( served_[ byte_offset ] );
+                store( served_[ byte_offset ], static_cast< std::uint8_t >( served ^ ( bits << bit_offset ) ) );
             }
 
             static constexpr std::size_t bits_per_characteristc = 2;
@@ -291,8 +314,9 @@ namespace bluetoe {
                 indication_bit   = 0x02
             };
 
-            std::size_t     next_;
-            std::uint8_t    queue_[ ( Size * bits_per_characteristc + 7 ) / 8 ];
+            std::size_t             next_;
+            volatile std::uint8_t   requested_[ ( Size * bits_per_characteristc + 7 ) / 8 ];
+            volatile std::uint8_t   served_[ ( Size * bits_per_characteristc + 7 ) / 8 ];
         };
 
         /**
@@ -314,15 +338,19 @@ namespace bluetoe {
                 assert( idx == 0 );
 
 #ifdef BLUETOE_VERIF_HOOKS
-                BLUETOE_VERIF_YIELD( 'l', &notification_ );
+                BLUETOE_VERIF_YIELD( 'l', const_cast< const bool* >( &notification_ ) );
 #endif
-                const bool result = !notification_;
+                // the flag is only written, if that changes it: a stale `true` must not be written
+                // after the link layer took the request
+                if ( notification_ )
+                    return false;
+
 #ifdef BLUETOE_VERIF_HOOKS
-                BLUETOE_VERIF_YIELD( 's', &notification_ );
+                BLUETOE_VERIF_YIELD( 's', const_cast< const bool* >( &notification_ ) );
 #endif
                 notification_ = true;
 
-                return result;
+                return true;
             }
 
             bool queue_indication( std::size_t idx )
@@ -331,26 +359,28 @@ namespace bluetoe {
                 assert( idx == 0 );
 
 #ifdef BLUETOE_VERIF_HOOKS
-                BLUETOE_VERIF_YIELD( 'l', &indication_ );
+                BLUETOE_VERIF_YIELD( 'l', const_cast< const bool* >( &indication_ ) );
 #endif
-                const bool result = !indication_;
+                if ( indication_ )
+                    return false;
+
 #ifdef BLUETOE_VERIF_HOOKS
-                BLUETOE_VERIF_YIELD( 's', &indication_ );
+                BLUETOE_VERIF_YIELD( 's', const_cast< const bool* >( &indication_ ) );
 #endif
                 indication_ = true;
 
-                return result;
+                return true;
             }
 
             std::pair< notification_queue_entry_type, std::size_t > dequeue_indication_or_confirmation( std::size_t offset, std::size_t& outstanding_confirmation )
             {
 #ifdef BLUETOE_VERIF_HOOKS
-                BLUETOE_VERIF_YIELD( 'l', &indication_ );
+                BLUETOE_VERIF_YIELD( 'l', const_cast< const bool* >( &indication_ ) );
 #endif
                 if ( indication_ && outstanding_confirmation == details::no_outstanding_indicaton )
                 {
 #ifdef BLUETOE_VERIF_HOOKS
-                    BLUETOE_VERIF_YIELD( 's', &indication_ );
+                    BLUETOE_VERIF_YIELD( 's', const_cast< const bool* >( &indication_ ) );
 #endif
                     indication_ = false;
                     outstanding_confirmation = offset;
@@ -359,12 +389,12 @@ namespace bluetoe {
                 }
 
 #ifdef BLUETOE_VERIF_HOOKS
-                BLUETOE_VERIF_YIELD( 'l', &notification_ );
+                BLUETOE_VERIF_YIELD( 'l', const_cast< const bool* >( &notification_ ) );
 #endif
                 if ( notification_ )
                 {
 #ifdef BLUETOE_VERIF_HOOKS
-                    BLUETOE_VERIF_YIELD( 's', &notification_ );
+                    BLUETOE_VERIF_YIELD( 's', const_cast< const bool* >( &notification_ ) );
 #endif
                     notification_ = false;
 
@@ -380,8 +410,8 @@ namespace bluetoe {
                 indication_   = false;
             }
         private:
-            bool notification_;
-            bool indication_;
+            volatile bool notification_;
+            volatile bool indication_;
         };
 
         template < int C >
